@@ -36,7 +36,8 @@ pub struct RefServer {
 }
 
 fn is_existing(tok: &str) -> bool {
-    matches!(tok, "@D1" | "@D2" | "@D3")
+    // (".", ".." : relative directories that exist wherever the check runs)
+    matches!(tok, "@D1" | "@D2" | "@D3" | "." | "..")
 }
 
 /// Reference parser for the server, straight from the documented flag table.
@@ -417,7 +418,7 @@ fn sel(v: &[&str]) -> BoxedStrategy<String> {
 fn server_group() -> BoxedStrategy<Vec<String>> {
     let ip = prop_oneof![4 => sel(&["127.0.0.1", "0.0.0.0", "::1", "192.168.1.7", "::", "fe80::1"]), 1 => sel(&["localhost", "256.0.0.1", "", "1.2.3", "1.2.3.4.5", ":::1"])];
     let port = prop_oneof![4 => (0u32..65536).prop_map(|p| p.to_string()), 1 => sel(&["65536", "-1", "", "abc", "69 ", "0x45", "99999999999"])];
-    let dir = prop_oneof![5 => sel(&["@D1", "@D2", "@D3"]), 1 => sel(&["@NX"])];
+    let dir = prop_oneof![5 => sel(&["@D1", "@D2", "@D3"]), 2 => sel(&[".", ".."]), 1 => sel(&["@NX"])];
     let dup = prop_oneof![4 => (0u32..255).prop_map(|p| p.to_string()), 2 => sel(&["255", "256", "-1", "", "x", "1000"])];
     prop_oneof![
         3 => (sel(&["-i", "--ip-address"]), ip).prop_map(|(f, v)| vec![f, v]),
@@ -441,7 +442,7 @@ fn client_group() -> BoxedStrategy<Vec<String>> {
     let blk = prop_oneof![4 => (0u64..70000).prop_map(|p| p.to_string()), 1 => sel(&["18446744073709551615", "18446744073709551616", "-8", "x", ""])];
     let ws = prop_oneof![4 => (0u32..65536).prop_map(|p| p.to_string()), 1 => sel(&["65536", "-1", "w", ""])];
     let to = prop_oneof![4 => (0u32..300).prop_map(|p| p.to_string()), 1 => sel(&["18446744073709551615", "18446744073709551616", "-1", "5s", ""])];
-    let dir = prop_oneof![5 => sel(&["@D1", "@D2", "@D3"]), 1 => sel(&["@NX"])];
+    let dir = prop_oneof![5 => sel(&["@D1", "@D2", "@D3"]), 2 => sel(&[".", ".."]), 1 => sel(&["@NX"])];
     prop_oneof![
         2 => (sel(&["-i", "--ip-address"]), ip).prop_map(|(f, v)| vec![f, v]),
         2 => (sel(&["-p", "--port"]), port).prop_map(|(f, v)| vec![f, v]),
